@@ -527,8 +527,15 @@ def judge_config(prop, tier, config, spec, an, insts, part, known, violations, b
 def differential(prop, tier, spec, parts, violations, broken, undecided, notes):
     """C18: the same harnesses in two configurations; only a *difference* between them is a violation"""
     ca, cb = spec['differential']
-    ra = run_e1(prop, tier, ca, spec, parts, broken)
-    rb = run_e1(prop, tier, cb, spec, parts, broken)
+    # the two builds are independent: run them side by side, half the cores each
+    import concurrent.futures
+    spec2 = dict(spec, jobs=8)
+    pa, pb = [], []
+    with concurrent.futures.ThreadPoolExecutor(max_workers=2) as ex:
+        fa = ex.submit(run_e1, prop, tier, ca, spec2, pa, broken)
+        fb = ex.submit(run_e1, prop, tier, cb, spec2, pb, broken)
+        ra, rb = fa.result(), fb.result()
+    parts.extend(pa + pb)
     if ra is None or rb is None or ra[0] is None or rb[0] is None:
         broken.append('differential run incomplete (%s / %s)' % (ca, cb))
         for r in (ra, rb):
@@ -642,6 +649,10 @@ def finish(prop, tier, seed, t0, parts, violations=(), broken=(), undecided=(), 
     evdir = os.environ.get('VERIF_EVIDENCE_DIR') or os.path.join(VERIF, 'evidence')
     os.makedirs(evdir, exist_ok=True)
     json.dump(ev, open(os.path.join(evdir, prop + '.json'), 'w'), indent=1)
+    if tier == 'thorough':
+        # the per-property file is rewritten by whichever tier ran last; keep the last thorough run as well
+        os.makedirs(os.path.join(evdir, 'thorough'), exist_ok=True)
+        json.dump(ev, open(os.path.join(evdir, 'thorough', prop + '.json'), 'w'), indent=1)
     for n in notes:
         log('NOTE ' + n)
     for v in violations:
